@@ -50,12 +50,13 @@ def handpicked_configs(scheme):
     elif scheme == "CGKO06.SSE1":
         out = []
         for k, l, s, isz in ((24, 32, 64, 8), (16, 8, 16, 4), (32, 16, 256, 16), (24, 32, 1024, 8), (16, 16, 4, 8),
-                             (32, 8, 64, 4)):
+                             (32, 8, 64, 4), (24, 40, 64, 8), (16, 20, 16, 8)):  # l = 40 / 20: PRP halves of 160 / 80 bits
             out.append((f"k{k}-l{l}-s{s}-id{isz}", {"param_k": k, "param_l": l, "param_s": s,
                                                     "param_identifier_size": isz}))
     elif scheme == "CGKO06.SSE2":
         out = []
-        for k, l, mfs, isz in ((24, 32, 1000, 8), (16, 8, 64, 4), (32, 16, 2 ** 20, 16), (24, 8, 1000, 8)):
+        for k, l, mfs, isz in ((24, 32, 1000, 8), (16, 8, 64, 4), (32, 16, 2 ** 20, 16), (24, 8, 1000, 8),
+                               (24, 40, 64, 8), (16, 20, 1000, 8)):
             out.append((f"k{k}-l{l}-mfs{mfs}-id{isz}", {"param_k": k, "param_l": l, "param_max_file_size": mfs,
                                                         "param_identifier_size": isz}))
     elif scheme == "CT14.Pi":
@@ -103,10 +104,10 @@ def random_config(scheme, rng):
         return {"param_lambda": lam, "prf_f_output_length": lam, "param_B": 2, "param_b": 2, "param_B_prime": 2,
                 "param_b_prime": 2, "param_identifier_size": 8}
     if scheme == "CGKO06.SSE1":
-        return {"param_k": c([16, 24, 32]), "param_l": c([8, 16, 32]), "param_s": c([4, 16, 64, 64, 256, 1024]),
+        return {"param_k": c([16, 24, 32]), "param_l": c([8, 16, 20, 32, 40]), "param_s": c([4, 16, 64, 64, 256, 1024]),
                 "param_identifier_size": c([4, 8, 16])}
     if scheme == "CGKO06.SSE2":
-        return {"param_k": c([16, 24, 32]), "param_l": c([8, 16, 32]), "param_max_file_size": c([64, 1000, 2 ** 20]),
+        return {"param_k": c([16, 24, 32]), "param_l": c([8, 16, 20, 32, 40]), "param_max_file_size": c([64, 1000, 2 ** 20]),
                 "param_identifier_size": c([4, 8, 16])}
     if scheme == "CT14.Pi":
         return {"param_k": c([8, 16, 20, 32, 48]), "param_k_prime": c([16, 24, 32]), "param_l": c([8, 16, 32]),
